@@ -32,8 +32,8 @@ def same_rule(ctx):
         ok0 = a0 in ("&self.path", "cur_path", "&cur_path")
         ok1 = re.fullmatch(r"&\w+(\.src)?\.name", a1) is not None
         obs.append(ob("C13.same/resolve/%s#%d" % (f.qual, i + 1), ok0 and ok1, ctx.where(f), "path::resolve(%s, %s): base is the referring template's path: %s; target is the src name: %s" % (a0, a1, ok0, ok1)))
-    if len(sites) < 6:
-        obs.append(ob("C13.floor/resolve-sites", False, "parse/tag.rs, proc_gen/tag.rs", "only %d resolve() call sites found (floor 6)" % len(sites)))
+    if len(sites) < 3:
+        obs.append(ob("C13.floor/resolve-sites", False, "parse/tag.rs, proc_gen/tag.rs", "only %d resolve() call sites found (floor 3: the dependency queries and the generator; 7 on the reviewed tree, fewer when shared through a helper)" % len(sites)))
     # no other consumer of a src name outside the parser (printer excluded: it prints the spelling)
     for f in tc.fns:
         if not f.body or "stringify" in f.module or (f.trait and f.trait.split("::")[-1] in ("Clone", "Debug")):
